@@ -75,10 +75,13 @@ def isPrefix (p l : Bytes) : Bool := startsWith l p
 
 def run (kv : KV) : String :=
   let bytes := unhex (get kv "bytes")
-  let halfClose := get kv "mode" != "open"
+  let mode := get kv "mode"
+  let halfClose := mode != "open"
   let unix := get kv "unix" == "1"
   let script := scriptOf (get kv "script")
-  let fin := if halfClose then EndState.eof else EndState.open
+  let fin := if mode == "open" then EndState.open else if mode == "reset" then EndState.reset else EndState.eof
+  -- after a full close or a reset the server's writes fail: what reaches the client is not compared
+  let wireObservable := mode == "halfclose" || mode == "open"
   let t := Conn.run bytes fin script
   -- implementation's observations
   let obs := (listS '|' (get kv "delivered")).map obsOf
@@ -92,19 +95,24 @@ def run (kv : KV) : String :=
   let aHeads := mobs.map strip == obs.map strip
   let aBodies := mobs.map (fun o => (o.bodyRead, o.readEnd)) == obs.map (fun o => (o.bodyRead, o.readEnd))
   let aSeq := mobs.map (·.url) == obs.map (·.url)
-  let aWire := t.unmodelled ||
+  let aWire := t.unmodelled || !wireObservable ||
     (if t.ending == .closed then wire == t.out
      else isPrefix (t.out.take t.flushed) wire && isPrefix wire t.out)
-  let aEof := eof == (t.ending == .closed)
+  let aEof := !wireObservable || eof == (t.ending == .closed)
   -- oracle on the implementation
   let hasIntent := has kv "i_reqs"
   let reqs := (listS '|' (get kv "i_reqs")).map ireqOf
   let e := Spec.expectConn halfClose reqs 0 script
   let v := Spec.judge e unix obs wire eof
   let okResults := results.all (· == "ok")
+  let flag (k : String) : Bool := !has kv k || get kv k == "1"
+  let aheadOk := !has kv "i_expect_received" || get kv "received" == get kv "i_expect_received"
+  let extra := ",same:" ++ b01 (flag "same") ++ ",prefix:" ++ b01 (flag "prefix") ++ ",fresh:" ++ b01 (!has kv "fresh" || get kv "fresh" != "0")
+    ++ ",nopanic:" ++ b01 (!has kv "panicked" || get kv "panicked" == "0") ++ ",ahead:" ++ b01 aheadOk
+    ++ ",noabort:" ++ b01 (!has kv "aborted" || get kv "aborted" == "0")
   let sub := "heads:" ++ b01 v.heads ++ ",bodies:" ++ b01 v.bodies ++ ",seq:" ++ b01 v.seq ++ ",wire:" ++ b01 v.wire
     ++ ",eof:" ++ b01 v.eof ++ ",addr:" ++ b01 v.addr ++ ",nohang:" ++ b01 (!hang) ++ ",results:" ++ b01 okResults
-    ++ ",dates:" ++ b01 (get kv "dates" == "ok")
+    ++ ",dates:" ++ b01 (get kv "dates" == "ok") ++ extra
   let agr := "heads:" ++ b01 aHeads ++ ",bodies:" ++ b01 aBodies ++ ",seq:" ++ b01 aSeq ++ ",wire:" ++ b01 aWire
     ++ ",eof:" ++ b01 aEof
   let classes := (reqs.map (·.cls)).eraseDups
@@ -123,6 +131,8 @@ def run (kv : KV) : String :=
   let tags :=
     (classes.map ("class:" ++ ·)) ++ (kinds.eraseDups.map ("body:" ++ ·)) ++ (fins.eraseDups.map ("fin:" ++ ·))
       ++ (consumed.eraseDups.map ("consumed:" ++ ·))
+      ++ (if has kv "i_fam" then ["fam:" ++ get kv "i_fam"] else [])
+      ++ (if has kv "cutk" then ["cut:" ++ (if t.delivered.isEmpty then "nothing" else "some")] else [])
       ++ ["mode:" ++ get kv "mode", "end:" ++ (if t.ending == .closed then "closed" else "waiting"),
           "n:" ++ toString (min t.delivered.length 5), "unix:" ++ b01 unix,
           "hold:" ++ b01 (get kv "hold" != "none"), "segs:" ++ b01 (get kv "segs" != "none")]
